@@ -169,31 +169,41 @@ func (w *World) CheckGames() []string {
 		}
 		can := w.NextSpendable(c, l)
 		amt, _ := massutil.NewAmountFromInt(c.Value - Mass/100)
-		hexs, _, err := w.I.W.CreateRawTransaction([]*masswallet.TxIn{{TxId: c.OP.Hash.String(), Vout: c.OP.Index}},
-			map[string]massutil.Amount{A.Addrs[0].Std: amt}, 0, "", nil)
-		if err != nil {
-			d = append(d, fmt.Sprintf("A: CreateRawTransaction for deposit %v failed: %v", c.OP, err))
-			continue
-		}
-		b, _ := hex.DecodeString(hexs)
-		var tx wire.MsgTx
-		if err := tx.SetBytes(b, wire.Packet); err != nil || len(tx.TxIn) != 1 {
-			d = append(d, fmt.Sprintf("A: withdrawal for %v is undecodable / has %d inputs", c.OP, len(tx.TxIn)))
-			continue
-		}
-		w.I.W.ClearUsedUTXOMark(&tx)
-		wantSeq := SpendSequence(c, forks.EnforceMASSIP0002WarmUp, consensus.MASSIP0002BindingLockedPeriod)
-		if tx.TxIn[0].Sequence != wantSeq {
-			d = append(d, fmt.Sprintf("A: withdrawal of %v (class %d, height %d) carries sequence %d, consensus requires %d", c.OP, c.Class, c.Height, tx.TxIn[0].Sequence, wantSeq))
-			continue
-		}
-		// the built transaction must pass the consensus lock check for the next block exactly
-		// when the reference says the deposit is withdrawable
-		store := blockchain.TxStore{c.OP.Hash: &blockchain.TxData{Tx: massutil.NewTx(c.Tx), Hash: &c.OP.Hash, BlockHeight: c.Height, Spent: make([]bool, len(c.Tx.TxOut))}}
-		lock, err := oracle().CalcSequenceLock(massutil.NewTx(&tx), store)
-		active := err == nil && blockchain.SequenceLockActive(lock, l.Height+1, time.Unix(1<<40, 0))
-		if active != can {
-			d = append(d, fmt.Sprintf("A: withdrawal of %v: consensus lock active=%v for next block but reference withdrawable=%v", c.OP, active, can))
+		for _, lockTime := range []uint64{0, 1, l.Height + 2} {
+			hexs, _, err := w.I.W.CreateRawTransaction([]*masswallet.TxIn{{TxId: c.OP.Hash.String(), Vout: c.OP.Index}},
+				map[string]massutil.Amount{A.Addrs[0].Std: amt}, lockTime, "", nil)
+			if err != nil {
+				d = append(d, fmt.Sprintf("A: CreateRawTransaction for deposit %v failed: %v", c.OP, err))
+				continue
+			}
+			b, _ := hex.DecodeString(hexs)
+			var tx wire.MsgTx
+			if err := tx.SetBytes(b, wire.Packet); err != nil || len(tx.TxIn) != 1 {
+				d = append(d, fmt.Sprintf("A: withdrawal for %v is undecodable / has %d inputs", c.OP, len(tx.TxIn)))
+				continue
+			}
+			w.I.W.ClearUsedUTXOMark(&tx)
+			wantSeq := SpendSequence(c, forks.EnforceMASSIP0002WarmUp, consensus.MASSIP0002BindingLockedPeriod)
+			// consensus prescribes the sequence of staking and new-style binding withdrawals; other
+			// inputs carry "final" (or final-1 to let a lock time take effect)
+			if wantSeq == wire.MaxTxInSequenceNum && lockTime != 0 && tx.TxIn[0].Sequence == wire.MaxTxInSequenceNum-1 {
+				wantSeq = tx.TxIn[0].Sequence
+			}
+			if tx.TxIn[0].Sequence != wantSeq {
+				d = append(d, fmt.Sprintf("A: withdrawal of %v (class %d, height %d, lock_time %d) carries sequence %d, consensus requires %d", c.OP, c.Class, c.Height, lockTime, tx.TxIn[0].Sequence, wantSeq))
+				continue
+			}
+			if tx.LockTime != lockTime {
+				d = append(d, fmt.Sprintf("A: withdrawal of %v asked with lock_time %d carries lock_time %d", c.OP, lockTime, tx.LockTime))
+			}
+			// the built transaction must pass the consensus lock check for the next block exactly
+			// when the reference says the deposit is withdrawable
+			store := blockchain.TxStore{c.OP.Hash: &blockchain.TxData{Tx: massutil.NewTx(c.Tx), Hash: &c.OP.Hash, BlockHeight: c.Height, Spent: make([]bool, len(c.Tx.TxOut))}}
+			lock, err := oracle().CalcSequenceLock(massutil.NewTx(&tx), store)
+			active := err == nil && blockchain.SequenceLockActive(lock, l.Height+1, time.Unix(1<<40, 0))
+			if active != can {
+				d = append(d, fmt.Sprintf("A: withdrawal of %v (lock_time %d): consensus lock active=%v for next block but reference withdrawable=%v", c.OP, lockTime, active, can))
+			}
 		}
 	}
 	sort.Strings(d)
